@@ -24,7 +24,10 @@ def prepare():
         sh(f"git -C {repo} checkout -q -- . && git -C {repo} clean -fdq -e target && git -C {repo} checkout -q --detach {head}")
     v = f"{SCR}/verif"
     os.makedirs(v, exist_ok=True)
-    sh(f"rsync -a --delete --exclude target /verif/harness/ {v}/harness/")
+    src = os.environ.get("SELFTEST_HARNESS_SRC", "/verif/harness")
+    if os.path.exists("/tmp/scratch/HARNESS_SRC"):  # lets a running batch keep a frozen copy while the harness is edited
+        src = open("/tmp/scratch/HARNESS_SRC").read().strip()
+    sh(f"rsync -a --delete --exclude target {src}/ {v}/harness/")
     toml = open(f"{v}/harness/Cargo.toml").read().replace('path = "/repo"', f'path = "{repo}"')
     open(f"{v}/harness/Cargo.toml", "w").write(toml)
     shutil.copy("/verif/KNOWN_FINDINGS.txt", f"{v}/KNOWN_FINDINGS.txt")
